@@ -113,6 +113,14 @@ CLAIMED = {
         "and `sqllogictest --format` run twice on real files (bytes vs model incl. the trailing-newline trimmer, files with 0..100 trailing blank lines). Defects D1 D2 D14 D17 found and fixed; D16 known.",
    ref="4/C05", technique="Coq proof (parser-output invariant + C03 round trip + humantime number theory) + differential correspondence incl. the real CLI",
    note="Trusted: Coq kernel; premises col_stable (proved for both column types used) and no_trailing_cr (D16 listed as known finding); Regex::new validity oracle."),
+ "C20": dict(
+   text="Coq theorems C20_chunking (for all reply sequences and ALL ways of cutting their concatenation into chunks the k-th pull of the FramedRead loop returns exactly the k-th reply's bytes), "
+        "C20_truncated (a stream ending inside the k-th reply gives the k-th call an error - never a frame, never waiting; a clean end gives end-of-stream), C20_stable, C20_prefix_incomplete, about the delimiter-scanner model of "
+        "JsonDecoder + FramedRead. Correspondence: ExternalDriver against a scripted child process: every single cut point and (thorough: every, quick: sampled) pair of cut points on short streams, random cuts on long ones, "
+        "lock-step/eager writing, every truncation point followed by exit or closed stdout, each call under a timeout; request bytes received by the child compared with the model's serde_json escaping; EOF/reaping after shutdown.",
+   ref="4/C20", technique="Coq proof (scanner stability + induction over chunks) + exhaustive-cut differential correspondence with a scripted child",
+   note="Trusted: Coq kernel; oracle law: frame_end = serde_json value boundary on object replies (tested by every run); reply contents decoded by Python's json as third implementation; "
+        "partial: promptness, pipe buffering, reaping and kill-on-drop are OS/tokio behaviour enforced by timeouts."),
 }
 
 PENDING = "check not built yet in this session (machinery under construction); no claim is made"
